@@ -217,7 +217,9 @@ func (s *C21Exch) Exchange(_ context.Context, input arrow.RecordBatch, out *vgir
 		// a data batch (rows > 0) that carries a log level key is still data
 		md = map[string]string{vgirpc.MetaLogLevel: "INFO", "u": "2"}
 	}
-	env.emitted = append(env.emitted, c21Emit{int64(rows), c21Payload(batch), md, false})
+	if !(rows == 0 && md[vgirpc.MetaLogLevel] != "") { // a zero-row batch with a log level IS a log envelope on the wire
+		env.emitted = append(env.emitted, c21Emit{int64(rows), c21Payload(batch), md, false})
+	}
 	return out.EmitWithMetadata(batch, md)
 }
 
@@ -516,6 +518,7 @@ type c21Wire struct {
 	fault   string
 	applied bool     // the fault took effect (some faults do not apply to some responses)
 	overCap bool     // the response handed to the client exceeds one of the client's size caps
+	bad     bool     // the Arrow library could not read the (decoded) body to its end
 	abs     string   // abstract response (model words)
 	tokens  []string // non-empty stream-state values in the response handed to the client
 }
@@ -595,6 +598,18 @@ func (rt *c21RT) RoundTrip(req *http.Request) (*http.Response, error) {
 		rt.wire = append(rt.wire, w)
 		return nil, errors.New("injected: connection reset by peer")
 	}
+	// structural faults first, then padding to a size, then (re-)encoding: a later fault must not
+	// undo an earlier one
+	prio := func(f string) int {
+		switch {
+		case strings.HasPrefix(f, "enc:"), strings.HasPrefix(f, "bomb"), f == "bigbody":
+			return 2
+		case strings.HasPrefix(f, "pad:"):
+			return 1
+		}
+		return 0
+	}
+	sort.SliceStable(fs, func(i, j int) bool { return prio(fs[i]) < prio(fs[j]) })
 	resp := &c21Resp{status: rec.Code, header: rec.Header().Clone(), body: append([]byte(nil), rec.Body.Bytes()...), clen: -2, readErr: -1}
 	w.applied = true
 	for _, f := range fs {
@@ -605,7 +620,7 @@ func (rt *c21RT) RoundTrip(req *http.Request) (*http.Response, error) {
 			w.applied = false
 		}
 	}
-	w.abs, w.tokens, w.overCap = env.abstract(resp)
+	w.abs, w.tokens, w.overCap, w.bad = env.abstract(resp)
 	rt.wire = append(rt.wire, w)
 
 	clen := resp.clen
@@ -647,7 +662,7 @@ func c21Encoding(h http.Header) string {
 
 // abstract renders the response exactly as net/http + the decompression and Arrow libraries
 // present it to the client.
-func (e *c21Env) abstract(r *c21Resp) (string, []string, bool) {
+func (e *c21Env) abstract(r *c21Resp) (string, []string, bool, bool) {
 	clen := r.clen
 	if clen == -2 {
 		clen = int64(len(r.body))
@@ -680,12 +695,14 @@ func (e *c21Env) abstract(r *c21Resp) (string, []string, bool) {
 	var tokens []string
 	var streams []string
 	trail := 0
+	anyBad := false
 	if dec != "-" {
 		rd := bytes.NewReader(plain)
 		for i := 0; i < 3 && (i == 0 || rd.Len() > 0); i++ {
 			sw, bad := e.absStream(rd, &tokens)
 			streams = append(streams, strings.Join(sw, " "))
 			if bad {
+				anyBad = true
 				break
 			}
 		}
@@ -695,7 +712,7 @@ func (e *c21Env) abstract(r *c21Resp) (string, []string, bool) {
 	words = append(words, streams...)
 	words = append(words, strconv.Itoa(trail))
 	over := clen > e.maxEnc || int64(elen) > e.maxEnc || dec == "-" || int64(len(plain)) > e.maxDec
-	return strings.Join(words, " "), tokens, over
+	return strings.Join(words, " "), tokens, over, anyBad
 }
 
 // ---------------------------------------------------------------- faults
